@@ -180,7 +180,8 @@ impl<'l, T: Debug> OrderedLocalQueue<'l, T> {
 
     /// Returns `true` if the local queue is empty.
     pub fn is_local_empty(&self) -> bool {
-        self.local_len() == 0
+        // `len` may still count items that a sibling has stolen meanwhile
+        self.local_len() == 0 || self.refresh_local_len() == 0
     }
 
     /// Returns `true` if the global queue is empty.
